@@ -181,8 +181,26 @@ impl PathSelector {
         }
         s.starts_with(".*")
             || Path::from(s).is_absolute()
-            // whatever the spelling: `\/a`, `[/]a`, `.+/a` can match a path that starts at the root
-            || pattern.matches_partially(MAIN_SEPARATOR.to_string().as_str())
+            || Self::matches_only_from_root(pattern)
+            || Self::matches_across_directories(pattern)
+    }
+
+    /// Returns true if every path the pattern can match starts with the separator,
+    /// however that is spelled: `\/a`, `[/]a`, `(?i)/a`.
+    /// A relative pattern whose first component can be empty, e.g. `*/a`, can match such a path
+    /// as well, but it can also match other paths.
+    fn matches_only_from_root(pattern: &Pattern) -> bool {
+        let separator = MAIN_SEPARATOR as u8;
+        pattern.can_start_with(&[separator]) == Some(true)
+            && (0..=u8::MAX)
+                .filter(|b| *b != separator)
+                .all(|b| pattern.can_start_with(&[b]) == Some(false))
+    }
+
+    /// Returns true if the pattern starts with something that matches any number of directories,
+    /// like `.*` does: `.+/a`, `\S+`.
+    fn matches_across_directories(pattern: &Pattern) -> bool {
+        pattern.can_start_with(&[MAIN_SEPARATOR as u8; 16]) == Some(true)
     }
 }
 
